@@ -26,6 +26,7 @@ const patience = 20 * time.Second
 // stuckOnce: a step did not happen within `patience`; goroutines may be left behind, so the driver stops after
 // this scenario (its log already carries the `stuck` event that the trace spec rejects)
 var stuckOnce bool
+var churnRounds = 400
 
 type event struct {
 	at uint64
@@ -284,67 +285,86 @@ func timedScenario(rng *rand.Rand, out func(map[string]interface{})) {
 	r.mu.Unlock()
 }
 
-// churnScenario: many functions that return at once are submitted back to back (each completion races with
-// the next submission), then one function that blocks on a gate, then Wait(). Wait must not return before the
-// blocked function has ended - whatever happened to the bookkeeping during the churn.
+// churnScenario: k rounds on ONE limiter; in each round a function that returns at once and then a function that
+// blocks on a gate are submitted back to back (the completion of the first races with the submission of the
+// second), then Wait() is called. Wait must not return before the blocked function has ended - whatever the
+// race did to the bookkeeping. Each round is judged on its own (`new` event), the limiter is quiescent between rounds.
 func churnScenario(rng *rand.Rand, k int, out func(map[string]interface{})) {
-	r := &run{}
 	n := 1 + rng.Intn(3)
-	r.log(map[string]interface{}{"ev": "new", "n": n, "scenario": map[string]interface{}{"churn": k, "limit": n}})
 	l := goz.NewLimiter(n)
+	var r *run
 	l.SetPanicHandler(func(v any) { r.log(map[string]interface{}{"ev": "handler", "v": v}) })
-	gate := make(chan struct{})
-	quick := func(i int) func() {
-		return func() {
-			r.log(map[string]interface{}{"ev": "enter", "i": i})
-			r.log(map[string]interface{}{"ev": "exit", "i": i, "panic": false})
+	flush := func() {
+		r.mu.Lock()
+		sort.Slice(r.events, func(a, b int) bool { return r.events[a].at < r.events[b].at })
+		for _, e := range r.events {
+			out(e.m)
 		}
+		r.mu.Unlock()
 	}
-	for i := 1; i <= k; i++ {
-		r.log(map[string]interface{}{"ev": "gocall", "i": i})
-		l.Go(quick(i))
-		r.log(map[string]interface{}{"ev": "goret", "i": i})
-		if i%7 == 0 {
-			runtime.Gosched()
+	for round := 0; round < k && !stuckOnce; round++ {
+		r = &run{}
+		rr := r
+		r.log(map[string]interface{}{"ev": "new", "n": n, "scenario": map[string]interface{}{"churn_round": round, "limit": n}})
+		gate := make(chan struct{})
+		quicks := 1 + rng.Intn(2)
+		if quicks > n {
+			quicks = n
 		}
+		// the quick functions spin until the submitter is about to make its next submission, so that their
+		// completion (slot and bookkeeping release) runs at the same moment as the next Go
+		var release int32
+		for i := 1; i <= quicks; i++ {
+			id := i
+			rr.log(map[string]interface{}{"ev": "gocall", "i": id})
+			l.Go(func() {
+				rr.log(map[string]interface{}{"ev": "enter", "i": id})
+				// (the exit stamp is taken before the spin: an earlier stamp only makes the checks more conservative,
+				// and nothing but the return itself lies between the release and the library's own bookkeeping)
+				rr.log(map[string]interface{}{"ev": "exit", "i": id, "panic": false})
+				for atomic.LoadInt32(&release) == 0 {
+				}
+			})
+			rr.log(map[string]interface{}{"ev": "goret", "i": id})
+		}
+		last := quicks + 1
+		rr.log(map[string]interface{}{"ev": "gocall", "i": last}) // (stamped before the release: earlier than the call itself)
+		atomic.StoreInt32(&release, 1)
+		for spin := rng.Intn(60); spin > 0; spin-- { // sweep the offset between the completions and the next submission (0 .. a few microseconds)
+			_ = atomic.LoadInt32(&release)
+		}
+		l.Go(func() {
+			rr.log(map[string]interface{}{"ev": "enter", "i": last})
+			<-gate
+			rr.log(map[string]interface{}{"ev": "exit", "i": last, "panic": false})
+		})
+		rr.log(map[string]interface{}{"ev": "goret", "i": last})
+		waitDone := make(chan struct{})
+		go func() {
+			rr.log(map[string]interface{}{"ev": "waitcall"})
+			l.Wait()
+			rr.log(map[string]interface{}{"ev": "waitret"})
+			close(waitDone)
+		}()
+		// give a Wait that is going to return early the time to do so (stimulus only), then release the function
+		select {
+		case <-waitDone:
+		case <-time.After(60 * time.Microsecond):
+		}
+		close(gate)
+		select {
+		case <-waitDone:
+			rr.log(map[string]interface{}{"ev": "end", "submitted": last})
+		case <-time.After(patience):
+			stuckOnce = true
+			rr.log(map[string]interface{}{"ev": "stuck", "what": "Wait did not return although every function ended"})
+		}
+		flush()
 	}
-	last := k + 1
-	r.log(map[string]interface{}{"ev": "gocall", "i": last})
-	l.Go(func() {
-		r.log(map[string]interface{}{"ev": "enter", "i": last})
-		<-gate
-		r.log(map[string]interface{}{"ev": "exit", "i": last, "panic": false})
-	})
-	r.log(map[string]interface{}{"ev": "goret", "i": last})
-	waitDone := make(chan struct{})
-	go func() {
-		r.log(map[string]interface{}{"ev": "waitcall"})
-		l.Wait()
-		r.log(map[string]interface{}{"ev": "waitret"})
-		close(waitDone)
-	}()
-	// give a Wait that is going to return early the time to do so (stimulus only), then release the function
-	select {
-	case <-waitDone:
-	case <-time.After(3 * time.Millisecond):
-	}
-	close(gate)
-	select {
-	case <-waitDone:
-		r.log(map[string]interface{}{"ev": "end", "submitted": k + 1})
-	case <-time.After(patience):
-		stuckOnce = true
-		r.log(map[string]interface{}{"ev": "stuck", "what": "Wait did not return although every function ended"})
-	}
-	r.mu.Lock()
-	sort.Slice(r.events, func(a, b int) bool { return r.events[a].at < r.events[b].at })
-	for _, e := range r.events {
-		out(e.m)
-	}
-	r.mu.Unlock()
 }
 
 func main() {
+	flag.IntVar(&churnRounds, "churn", 400, "rounds per churn scenario")
 	outp := flag.String("out", ".", "output dir")
 	n := flag.Int("n", 200, "scenarios")
 	seed := flag.Int64("seed", 1, "seed")
@@ -377,7 +397,7 @@ func main() {
 			break
 		}
 		if s%40 == 7 {
-			churnScenario(rng, 300, func(m map[string]interface{}) {
+			churnScenario(rng, churnRounds, func(m map[string]interface{}) {
 				b, _ := json.Marshal(m)
 				f.Write(b)
 				f.Write([]byte("\n"))
